@@ -107,6 +107,6 @@ func (d *ExpoDom) Call(in *Interp, site ssa.Instruction, fn *ssa.Function, args 
 	case "field.(*Element).Set", "(*Scalar).Set":
 		return put(get(1)), true
 	}
-	in.Undecided(site, "E7: call of %s (only Multiply, Square and Set have exponent semantics)", name)
+	// any other in-repo function (helpers such as a repeated-squaring loop) is interpreted
 	return nil, false
 }
